@@ -445,8 +445,8 @@ func nestedSortLaw(c *RunCtx) {
 		for i, n := range got {
 			pos[n] = i
 		}
-		if len(got) != len(leaves) || strings.Count(eval.Dump(e), "(") != 1 {
-			continue // not flattened into one node of leaves (capacity or another shape): nothing to say here
+		if len(got) != len(leaves) {
+			continue // not a program over these leaves into one node of leaves (capacity or another shape): nothing to say here
 		}
 		for i := 0; i < len(leaves); i++ {
 			for j := i + 1; j < len(leaves); j++ {
